@@ -250,6 +250,9 @@ func renderObs(o Observation, v smt.ModelVal) string {
 		}
 		return fmt.Sprintf("f64:%d", v.U)
 	}
+	if o.Str == "strord" {
+		return fmt.Sprintf("%q", ordString(v.U))
+	}
 	if o.Str == "signed" {
 		w := v.Sort.W
 		if w < 64 {
